@@ -7,9 +7,16 @@ IMPL   harness/h_c13.cpp (+ c13_kernel.hpp): for a view program, `get_function_c
 MODEL  lean/NmVerif/Kernel.lean `runSchedule` (fold of `assignResult` over the schedule) on the flattened host result.
 ORACLE NumPy evaluates the view program; expected buffer = closed form "cell i holds res[i] iff some thread of the
        schedule has block*bsz+thread == i, else the sentinel" (what Props.C13.kernel_untouched_until_hit proves of the fold).
-No device exists here: the launch itself (driver API, memory copies, real thread scheduling) is NOT covered.
+       harness/h_c13_sycl.cpp: the REAL SYCL evaluator (eval/sycl/evaluator.hpp + context.hpp: extraction, operand upload,
+       launch geometry, kernel lambda, copy back) end to end over harness/c13_sycl_mock.hpp, a sequential stand-in for the SYCL
+       runtime in which the generator picks which work items of the context's own launch run, in which order, how often.
+       harness/h_c13_dev.cpp: the REAL context_t::create_array of the CUDA and HIP contexts over stand-ins for the runtime API
+       (clang++ CUDA/HIP host-only mode): the uploaded (pointer, shape, dim) triple.
+No device exists here: driver API, real memory transfers and real thread scheduling are NOT covered.
 """
 import itertools
+import os
+import shutil
 import numpy as np
 from runner import Case
 from shapes import prod, fmt, fmt_lists
@@ -21,23 +28,29 @@ RULE = ('view programs of depth 1..3 over the device-supported operations (index
         'both operand rebuild modes (device_array / create_array(ptr,shape_ptr,dim)); block sizes cycle through 1..33, grids from '
         'exactly covering to 2x over-provisioned, orders ascending / descending / block-interleaved / even-odd / random permutation, '
         'duplicated threads, far out-of-range threads, partial launches; one program additionally over the full cross product '
-        'bsz 1..33 x grid x order. non-trivial = output has >= 2 cells and the schedule is not the plain ascending exact launch')
+        'bsz 1..33 x grid x order; binary ufuncs with both operands views and reductions over them; 12 programs end to end through the real SYCL evaluator over a mock runtime '
+        '(its own launch: work-group 32, global size rounded up; work items in 5 orders, duplicated, beyond the launch, omitted); uploads of row- and column-major '
+        'operands of rank 1..8 through the real CUDA / HIP create_array. non-trivial = output has >= 2 cells and the schedule is not the plain ascending exact launch')
 EXHAUSTIVE = {'quick': False, 'thorough': False}
 ANCHORS = {'NmVerif.Kernel.createVector/createArray/createMutableArray': 'array::create_vector, create_array(ptr,shape_ptr,dim), create_mutable_array (eval/kernel_helper.hpp:30-129)',
            'NmVerif.Kernel.threadOffset': 'array::compute_offset(thread_id, block_id, block_size) (kernel_helper.hpp:149-155)',
            'NmVerif.Kernel.assignResult': 'array::assign_result (kernel_helper.hpp:157-191) over view::mutable_flatten / view::flatten',
            'NmVerif.Kernel.runSchedule': 'kernel entry nm_cuda_run_function / nm_hip_run_function / sycl parallel_for body, once per thread',
-           'host side': 'functional::get_function_composition, get_function_operands, functional::apply (functor.hpp, function_composition.hpp)'}
+           'host side': 'functional::get_function_composition, get_function_operands, functional::apply (functor.hpp, function_composition.hpp)',
+           'NmVerif.Kernel.deviceOperand': 'cuda::context_t::create_array / hip / sycl (eval/cuda/context.hpp:155-200, eval/hip/context.hpp:158-203, eval/sycl/context.hpp:372-412), run for real in h_c13_dev.cpp / h_c13_sycl.cpp',
+           'SYCL launch': 'sycl::context_t::run / run_ (eval/sycl/context.hpp:448-520, 575-595) and evaluator_t<view, shared_ptr<sycl::context_t>> (eval/sycl/evaluator.hpp), run for real over the mock runtime'}
 MANIFEST = dict(
-    text='Proof: 13 Lean theorems about the kernel body model — create_vector/create_array/device_array round trips from raw (pointer, shape, dim) triples, the guard (global id >= size writes nothing), the closed form of the fold over ANY schedule (order, interleaving, duplication, block size, over-provisioned or partial grid: a cell is final iff some executed thread addressed it, otherwise untouched; never out of bounds) and hence output = flattened host result for every covering launch — tied to the C++ by running the real kernel_helper.hpp + functional extraction/apply on the host for 54 view programs of depth 1..3 (CUDA/HIP/SYCL path: function extraction + device_array operands + fn::apply; OpenCL path: create_array(ptr,shape_ptr,dim) + direct view call), block sizes 1..33, exact..2x grids, five thread orders, duplicated / far / missing threads, against NumPy and the Lean fold on every check.',
-    note='No device in this sandbox: kernel launch, driver API, memory transfer and real hardware scheduling are not exercised; the 1-d launch is modelled as an arbitrary list of (thread, block) pairs executed sequentially (threads write disjoint cells or identical values, so sequential consistency is the only assumption). Lean kernel + propext/Classical.choice/Quot.sound. Known findings: column-major host operands are re-read row-major on the device path; function extraction is wrong when a view operand is not the first operand. Repaired: dangling reference in get_function_composition for binary ufuncs over views (regression programs kept, also under ASan in the thorough tier).',
+    text='Proof: 13 Lean theorems about the kernel body model — create_vector/create_array/device_array round trips from raw (pointer, shape, dim) triples, the guard (global id >= size writes nothing), the closed form of the fold over ANY schedule (order, interleaving, duplication, block size, over-provisioned or partial grid: a cell is final iff some executed thread addressed it, otherwise untouched; never out of bounds) and hence output = flattened host result for every covering launch — tied to the C++ by running the real kernel_helper.hpp + functional extraction/apply on the host for 59 view programs of depth 1..3, the real SYCL evaluator end to end over a sequential mock of the SYCL runtime (12 programs) and the real CUDA/HIP operand upload over runtime stand-ins (CUDA/HIP/SYCL path: function extraction + device_array operands + fn::apply; OpenCL path: create_array(ptr,shape_ptr,dim) + direct view call), block sizes 1..33, exact..2x grids, five thread orders, duplicated / far / missing threads, against NumPy and the Lean fold on every check.',
+    note='No device in this sandbox: kernel launch, driver API, memory transfer and real hardware scheduling are not exercised; the 1-d launch is modelled as an arbitrary list of (thread, block) pairs executed sequentially (threads write disjoint cells or identical values, so sequential consistency is the only assumption). Lean kernel + propext/Classical.choice/Quot.sound. Known findings (both replayed through the real SYCL evaluator and the real CUDA/HIP create_array as well): column-major host operands are re-read row-major on the device path (repair proposed: fixes/C13-kernel.colmajor-operand.diff); function extraction is wrong when a view operand is not the first operand (fixes/C14-extract.nonfirst-view-operand.diff); follow-ups on branch w4/c1314-postfix. Repaired: dangling reference in get_function_composition for binary ufuncs over views (regression programs kept, also under ASan in the thorough tier).',
     technique='Lean 4 induction over schedules (List (tid x bid)) + differential correspondence of the host-compilable kernel body')
 ASSUMPTIONS = ['a device launch is equivalent to some sequential execution of its threads (each thread writes one cell; colliding writes carry the same value)',
                'block_id * block_size + thread_id does not wrap in size_t (launch geometry below 2^64 threads)',
                'operand rank <= NMTOOLS_KERNEL_MAX_DIM = 8 (create_vector uses static_vector<T,8>)',
                'kernel launch / memory copies / device compilers are outside the sandbox and not covered']
 PARTIAL = []
-TRUSTED = ['host simulation of the kernel body: same headers, same call sequence as eval/cuda/context.hpp:10-31, but compiled by g++ for the host']
+TRUSTED = ['host simulation of the kernel body: same headers, same call sequence as eval/cuda/context.hpp:10-31, but compiled by g++ for the host',
+           'harness/c13_sycl_mock.hpp (sequential stand-in for the SYCL runtime: buffers are host vectors, parallel_for runs the work items the generator lists), '
+           'harness/c13_cuda_shim.hpp / c13_hip_shim.hpp (device memory = host memory, kernels never launched)']
 
 SENTINEL = -7
 MAXOUT = 64
@@ -258,6 +271,16 @@ def _progs():
     def g_rta(rng):
         s = rshape(rng, cap=16); return [s, bpartner(rng, s)], P(axes=perm(rng, len(s)), r=rng.randint(1, 3), axis=rng.randrange(len(s)))
     add('rep_tr_add', 8, 3, lambda A, p: np.repeat(np.transpose(A[0] + A[1], p['axes']), p['r'], p['axis']), g_rta)
+    # ---- both operands of a broadcasting binary ufunc are views, reductions over such nodes (depth 2, 3) ----
+    def g_add_tr_neg(rng):
+        s = rshape(rng); ax = perm(rng, len(s)); ts = [s[i] for i in ax]; return [s, bpartner(rng, ts)], P(axes=ax)
+    add('add_tr_neg', 9, 2, lambda A, p: np.transpose(A[0], p['axes']) + (-A[1]), g_add_tr_neg, nonfirst=True)
+    def g_same_axis(rng):
+        s = rshape(rng, min_rank=2); return [s, list(s)], P(axis=rng.randrange(len(s)))
+    add('mul_sum_sum', 9, 2, lambda A, p: np.sum(A[0], axis=p['axis'], keepdims=True) * np.sum(A[1], axis=p['axis'], keepdims=True), g_same_axis, data='small', nonfirst=True)
+    add('sum_add_neg_neg', 9, 3, lambda A, p: np.sum((-A[0]) + (-A[1]), axis=p['axis']), g_sum_mul, nonfirst=True)
+    add('max_mul_add', 9, 2, lambda A, p: np.maximum(A[0] * A[1], A[2] + A[3]), g_quad, data='small', nonfirst=True)
+    add('neg_add_mul_mul', 9, 3, lambda A, p: -(A[0] * A[1] + A[2] * A[3]), g_quad, data='small', nonfirst=True)
     # ---- column-major leaves (known finding kernel.colmajor-operand) ----
     add('transpose_col', 6, 1, lambda A, p: np.transpose(A[0], p['axes']), g_transpose, layout='col')
     add('add_col', 6, 1, lambda A, p: A[0] + A[1], g_bin, layout='col')
@@ -265,11 +288,31 @@ def _progs():
 
 
 PROGS = _progs()
-GROUPS = [1, 2, 3, 4, 5, 6, 7, 8]
+GROUPS = [1, 2, 3, 4, 5, 6, 7, 8, 9]
+
+
+# programs also run END TO END through the real SYCL evaluator (eval/sycl/evaluator.hpp + context.hpp) over the sequential
+# stand-in for the SYCL runtime harness/c13_sycl_mock.hpp: name -> harness TU group (h_c13_sycl.cpp)
+SYCL_PROGS = {'transpose': 1, 'add': 1, 'reduce_add': 1, 'accumulate_add': 1, 'neg_add': 1, 'add_tr': 1,
+              'sum_mul': 2, 'neg_add_mul': 2, 'tr_neg_add': 2, 'add_mul2': 2,
+              'transpose_col': 3, 'add_col': 3}
+SYCL_GROUPS = [1, 2, 3]
+SYCL_LOCAL = 32          # work-group size chosen by sycl::context_t::run_
+_SYCL_INC = os.path.join(os.path.dirname(os.path.dirname(os.path.dirname(os.path.abspath(__file__)))), 'harness', 'c13_sycl')
+
+
+_HIP_INC = os.path.join(os.path.dirname(_SYCL_INC), 'c13_hip')
+# the host side of the CUDA / HIP contexts (context_t::create_array) over stand-ins for the runtime API: the contexts use the
+# launch syntax <<<...>>>, so these two TUs are compiled by clang++ in CUDA / HIP host-only mode (skipped when there is no clang++)
+HAVE_CLANG = shutil.which('clang++') is not None
+DEV_BACKENDS = {'cuda': ['-x', 'cuda', '--cuda-host-only', '-nocudainc', '-nocudalib', '-DC13_BACKEND_CUDA'],
+                'hip': ['-x', 'hip', '--cuda-host-only', '-nogpuinc', '-nogpulib', '-I' + _HIP_INC, '-DC13_BACKEND_HIP']} if HAVE_CLANG else {}
 
 
 def harness_specs(tier):
     sp = [dict(name='h_c13_g%d' % g, src='h_c13.cpp', flavour='fast', extra=['-DC13_GROUP=%d' % g]) for g in GROUPS]
+    sp += [dict(name='h_c13_sycl%d' % g, src='h_c13_sycl.cpp', flavour='fast', extra=['-DC13_SYCL_GROUP=%d' % g, '-I' + _SYCL_INC]) for g in SYCL_GROUPS]
+    sp += [dict(name='h_c13_%s' % b, src='h_c13_dev.cpp', flavour='fast', compiler='clang++', extra=fl) for b, fl in DEV_BACKENDS.items()]
     if tier == 'thorough':
         # the same TUs under ASan + UBSan (NDEBUG as the baseline): out-of-bounds / lifetime errors of the kernel body are results
         sp += [dict(name='h_c13_g%d_san' % g, src='h_c13.cpp', flavour='san', extra=['-DC13_GROUP=%d' % g]) for g in GROUPS]
@@ -387,9 +430,87 @@ def sched_picker(rng, ctr, count, full_cross=False):
     return scheds
 
 
+def sycl_cases(tier, rng):
+    """the real SYCL evaluator over the mock runtime: the launch is the context's own (work-group 32, global size = output size
+    rounded up to a multiple of 32); the harness chooses which work items of it run, in which order and how often"""
+    ncase = 3 if tier == 'quick' else 20
+    k = 0
+    for name, grp in SYCL_PROGS.items():
+        pg = PROGS[name]
+        made = tries = 0
+        while made < ncase and tries < 10 * ncase:
+            tries += 1
+            shapes, params = pg['gen'](rng)
+            A = [leaf(sh, j, pg['data']) for j, sh in enumerate(shapes)]
+            try:
+                res = np.asarray(pg['ref'](A, params))
+            except ValueError:
+                continue
+            if res.size == 0 or res.size > MAXOUT or np.abs(res).max() >= 2 ** 31:
+                continue
+            made += 1
+            oshape = list(res.shape); rf = [int(x) for x in res.reshape(-1)]; n = len(rf)
+            G = -(-n // SYCL_LOCAL) * SYCL_LOCAL
+            base = ' '.join(('prog=%s shapes=%s %s data=%s init=%d' % (pg['hprog'], fmt_lists(shapes), fmt_params(params), pg['data'], SENTINEL)).split())
+            off = pg['layout'] == 'col' or pg['nonfirst']        # known-defect regions: the oracle is the judge
+            h = 'h_c13_sycl%d' % grp
+            tags0 = ['sycl', 'prog=' + name, 'depth=%d' % pg['depth'], 'mode=sycl', 'outdim=%d' % len(oshape), 'bsz=%d' % SYCL_LOCAL]
+            yield Case('c13_sycl_launch %s sched=all' % base, h, dom=False, oracle='ok launches=1 global=%d local=%d' % (G, SYCL_LOCAL),
+                       model=False, nontrivial=False, tags=tags0 + ['launch'])
+            for _ in range(3 if tier == 'quick' else 6):
+                k += 1
+                ids = list(range(G))
+                order = ORDERS[k % len(ORDERS)]
+                stags = [order, 'exact' if G == n else 'over']
+                if order == 'desc':
+                    ids.reverse()
+                elif order == 'interleave':
+                    ids = ids[0::2] + ids[1::2]
+                elif order == 'evenodd':
+                    ids = [g for g in ids if g % 2 == 0] + [g for g in reversed(ids) if g % 2 == 1]
+                elif order == 'random':
+                    rng.shuffle(ids)
+                kind = k % 7
+                if kind == 2:
+                    for _ in range(rng.randint(1, 4)):
+                        ids.insert(rng.randrange(len(ids) + 1), rng.choice(ids))
+                    stags.append('dup')
+                elif kind == 4:          # work items beyond the launch: the guard of assign_result
+                    ids.insert(rng.randrange(len(ids) + 1), G + rng.randrange(1000)); ids.insert(rng.randrange(len(ids) + 1), 2 ** 33 + rng.randrange(7))
+                    stags.append('far')
+                elif kind == 6:
+                    drop = set(rng.sample(range(len(ids)), max(1, len(ids) // 4)))
+                    ids = [g for i, g in enumerate(ids) if i not in drop]
+                    stags.append('partial')
+                plain = (order == 'asc' and kind not in (2, 4, 6))
+                sched = [(g, 0) for g in ids]
+                out, eq = expected(rf, n, 1, sched)
+                req = 'c13_sycl %s sched=%s' % (base, 'all' if plain else fmt_sched(sched))
+                mreq = 'c13_kern shape=%s res=%s init=%d bsz=1 sched=%s' % (fmt(oshape), fmt(rf), SENTINEL, fmt_sched(sched))
+                yield Case(req, h, dom=not off, oracle='ok shape=%s out=%s hosteq=%d' % (fmt(oshape), fmt(out), eq), model=not off, mreq=mreq,
+                           nontrivial=(n >= 2 and not plain), tags=tags0 + stags)
+
+
+def upload_cases(tier, rng):
+    """context_t::create_array of the CUDA / HIP contexts (real host code over the runtime stand-ins): the uploaded operand,
+    rebuilt as the kernels do, must be the host array — element k (row-major numbering) at row-major position k"""
+    shapes = [[n] for n in (1, 2, 5)] + [[a, b] for a in (1, 2, 3) for b in (1, 2, 4)] + [[2, 3, 2], [1, 3, 1], [2, 1, 2, 3], [1, 1, 1, 1, 1, 1, 1, 2], [2, 1, 2, 1, 2, 1, 2, 1]]
+    for _ in range(10 if tier == 'quick' else 100):
+        shapes.append(rshape(rng, max_rank=(4 if rng.random() < 0.8 else 8), max_extent=(4 if rng.random() < 0.8 else 2), cap=64))
+    for b in DEV_BACKENDS:
+        for s in shapes:
+            n = prod(s)
+            for layout in ['row', 'col']:
+                visible = layout == 'col' and len([e for e in s if e > 1]) >= 2
+                yield Case('c13_upload layout=%s shape=%s' % (layout, fmt(s)), 'h_c13_%s' % b, dom=(layout == 'row'),
+                           oracle='ok shape=%s data=%s buffer=%s' % (fmt(s), fmt(list(range(n))), fmt(list(range(n)))),
+                           nontrivial=len([e for e in s if e > 1]) >= 2,
+                           tags=['upload', 'backend=' + b, 'layout=' + layout, 'dim=%d' % len(s)] + (['layout-visible'] if visible else []))
+
+
 def gen(tier, rng):
     k = 0
-    for c in gen_(tier, rng):
+    for c in itertools.chain(gen_(tier, rng), sycl_cases(tier, rng), upload_cases(tier, rng)):
         yield c
         # thorough: every 4th in-domain request (every 16th of the known-defect regions) also goes to the sanitizer build
         k += 1
@@ -452,7 +573,10 @@ def _req_args(c):
 
 def colmajor_operand(c):
     """a program over column-major host arrays where some operand has >= 2 axes of extent > 1 (layout visible in the buffer)"""
-    if not c.req.startswith('c13_kern '):
+    if c.req.startswith('c13_upload '):
+        a = _req_args(c)
+        return a.get('layout') == 'col' and len([e for e in a.get('shape', '').split(',') if e and int(e) > 1]) >= 2
+    if not (c.req.startswith('c13_kern ') or c.req.startswith('c13_sycl ')):
         return False
     a = _req_args(c)
     if not a.get('prog', '').endswith('_col'):
@@ -463,6 +587,8 @@ def colmajor_operand(c):
 
 def nonfirst_view_operand(c):
     """extraction path (mode=dev) of a view tree in which some node has a view operand that is not its first operand"""
+    if c.req.startswith('c13_sycl '):
+        return _req_args(c).get('prog', '') in NONFIRST
     if not c.req.startswith('c13_kern '):
         return False
     a = _req_args(c)
@@ -478,4 +604,5 @@ KNOWN_PREDICATES = {'colmajor_operand': colmajor_operand, 'nonfirst_view_operand
 def coverage_extra(cases, tier):
     progs = sorted({t[5:] for c in cases for t in c.tags if t.startswith('prog=')})
     bs = sorted({int(t[4:]) for c in cases for t in c.tags if t.startswith('bsz=')})
-    return {'programs': len(progs), 'program_names': progs, 'block_sizes': bs, 'device_launch_covered': False}
+    return {'programs': len(progs), 'program_names': progs, 'block_sizes': bs, 'device_launch_covered': False,
+            'sycl_evaluator_over_mock_runtime': sorted(SYCL_PROGS), 'cuda_hip_create_array_over_shim': sorted(DEV_BACKENDS)}
